@@ -1,6 +1,7 @@
 import RModel.Base.Lit
 import RModel.Model.Exec
 import RModel.Lemmas.Exec
+import RModel.Lemmas.ExecRollback
 /-
   C04 — A failed apply changes nothing.   (property theorems only; model: RModel/Model/Exec.lean)
 
@@ -43,7 +44,8 @@ theorem success_complete (cfg : Cfg) (plan : Plan) (t0 : Tree) (g : G04 t0 plan)
     unfold core
     refine safe0_bind h1 (fun _ => ?_)
     intro s1 hi hp
-    have h2 := safe0_renameLoop cfg (sortRens plan.rens) [] s1.t (g.free _ hp) s1 hi rfl
+    have h2 := safe0_renameLoop ExecFlags.rollbackRealPairs cfg (sortRens plan.rens) [] [] s1.t (g.free _ hp) s1 hi rfl
+    change Sat0 _ (renameLoop cfg [] (sortRens plan.rens) s1) at h2
     cases hx : renameLoop cfg [] (sortRens plan.rens) s1 with
     | ok a s2 => rw [hx] at h2; exact ⟨h2.1, s1.t, hp, h2.2⟩
     | err _ _ => trivial
@@ -99,19 +101,20 @@ theorem validation_first_file_clean (cfg : Cfg) (hs : List Hunk) (f : Path) (fs 
 theorem preflight_changes_nothing (id : Bytes) (entry : UInt8) (plan : Plan) (s : St)
     (h : preflightOk s.t plan.rens = false) :
     applyPlanM { log := none, id := id, entry := entry } plan s = .err .destExists s := by
-  simp [applyPlanM, logM, bind, M.bind, pure, M.pure, getTree, h, Exec.throw]
+  simp [applyPlanM, logM, logMF, bind, M.bind, pure, M.pure, getTree, h, Exec.throw]
 
 /-- failure_reports_failure_partial: for EVERY fault index k and every I/O errno (other than the two that
     `create_dir_all` interprets), if the content phase and the rename phase end normally then the fault point has not
-    been reached: an error injected at any call of these two phases — temp-file calls, renames, log lines — is never
-    swallowed into success.  (The swallowing sites lie outside: `C04_witness_history_write_swallowed`,
+    been reached: an error injected at any call of these two phases — temp-file calls, renames, and log lines as long
+    as `state.log(…)?` propagates their errors (`LogReports`: with the repair `logErrorsIgnored` a log line that
+    cannot be written is deliberately NOT a failure) — is never swallowed into success.  (The swallowing sites lie outside: `C04_witness_history_write_swallowed`,
     `C04_witness_probe_left`, the lock release and the removal of plan.json.) -/
 theorem failure_reports_failure_partial (cfg : Cfg) (plan : Plan) (k : Nat) (e : Errno) (s s' : St)
-    (perf : List (Path × Path)) (hinj : s.inj = .fail k e) (he1 : e ≠ .ENOENT) (he2 : e ≠ .EEXIST) (hn : s.n ≤ k)
-    (hrun : core cfg plan s = .ok perf s') : s'.n ≤ k := by
+    (perf : List (Path × Path)) (hlog : LogReports cfg) (hinj : s.inj = .fail k e) (he1 : e ≠ .ENOENT) (he2 : e ≠ .EEXIST)
+    (hn : s.n ≤ k) (hrun : core cfg plan s = .ok perf s') : s'.n ≤ k := by
   have h : Reports k (core cfg plan) := by
     unfold core
-    exact reports_bind (reports_contentLoop k _ cfg plan.hunks _) (fun _ => reports_renameLoop k cfg _ _)
+    exact reports_bind (reports_contentLoop k _ cfg hlog plan.hunks _) (fun _ => reports_renameLoop k _ cfg hlog _ _ _)
   exact (h s e perf s' hinj he1 he2 hn hrun).1
 
 /-- failure_reports_failure (call level): a failure injected at a call that is issued through `doOp` comes back as an
@@ -124,6 +127,39 @@ theorem failure_reports_failure_call (op : Op) (s : St) (e : Errno) (h : s.inj =
   rw [h]
   simp only [if_true]
   exact ⟨_, rfl, rfl⟩
+
+/-- rollback_restores_paths: reverting the renames AS THEY WERE EXECUTED, in reverse order (what `rollback` does with
+    the repair `rollbackRealPairs`), restores the tree EXACTLY — for every tree and every list of renames, nested
+    directories included, under the decidable guard `RevAlong` (each rename went onto a free name with nothing below
+    it; the source's parent is still there).  With the recorded (original-from, adjusted-to) pairs this is false for
+    nested directories: `C04_witness_rollback_nested`. -/
+theorem rollback_restores_paths (t tn : Tree) (l : List (Path × Path)) (hexec : execAll t l = some tn)
+    (hg : RevAlong t l) : Apply.rollback tn l.reverse none = (t, none) :=
+  rollback_restores l t tn hexec hg
+
+/-- C04 restricted to the rename phase, at PROGRAM level, for the repaired code (`renameLoopF true`: rollback with the
+    pairs as executed; `LogQuiet`: log errors ignored or no log file): for every plan, every tree and EVERY fault index k
+    and errno, one injected failure anywhere in the rename phase — at any rename, at any log line — makes the phase either
+    end normally or report the failure with the tree EXACTLY as it was when the phase started (nested directories
+    included); it never crashes.  Guard `phaseOkB` (decidable by running): the fault-free phase succeeds, every rename
+    goes onto a free name with nothing below it. -/
+theorem rename_phase_failure_restores (cfg : Cfg) (hlq : LogQuiet cfg) (rs : List Ren) (t0 : Tree)
+    (hg : phaseOkB t0 [] rs = true) (k : Nat) (e : Errno) (s : St) (hi : s.inj = .fail k e) (ht : s.t = t0) :
+    match renameLoopF true cfg [] [] rs s with
+    | .ok _ _ => True
+    | .err _ s' => s'.t = t0
+    | .crash _ => False := by
+  have h := safeS_renameLoop k e cfg hlq t0 rs [] [] t0 rfl (by unfold RevAlong; rfl) hg s hi ht
+  cases hx : renameLoopF true cfg [] [] rs s with
+  | ok a s' => trivial
+  | err f s' => rw [hx] at h; exact h.2.2
+  | crash s' => rw [hx] at h; exact h
+
+/-- a single rename onto a free name is undone exactly by the opposite rename -/
+theorem rename_undone (t t' : Tree) (a b : Path) (h : Fs.rename t a b = .ok t') (hab : a ≠ b)
+    (hfree : lookup t b = none) (hunder : ∀ e ∈ t, pre b e.1 = false) (hpar : parentOk t' a = .ok ()) :
+    Fs.rename t' b a = .ok t :=
+  rename_inverse h hab hfree hunder hpar
 
 -- concrete scenarios (kernel evaluated) ----------------------------------------------------------------------------
 -- The witnesses run the command BODIES (`bodyApply`, `bodyRename`: everything between taking and releasing the
@@ -178,7 +214,7 @@ theorem C04_witness_tmp_left : ExecFlags.tempRemovedOnFailure = false →
 set_option maxRecDepth 100000 in
 /-- finding late_failure_no_rollback: `openw history.json` (call 29) fails; failure is reported with the whole plan
     applied and nothing recorded -/
-theorem C04_witness_history_fail :
+theorem C04_witness_history_fail : ExecFlags.historyEntryIsCommitPoint = false →
     outcome (run (bodyApply plA) tA (.fail 29 .EIO)) = .fail ∧
     userTree (run (bodyApply plA) tA (.fail 29 .EIO)).st.t = userTree (applyPlan tA plA).tree ∧
     loadHist (run (bodyApply plA) tA (.fail 29 .EIO)).st.t = [entryOld] := by decide +kernel
@@ -200,7 +236,7 @@ theorem C04_witness_failure_after_history : ExecFlags.atomicHistorySave = false 
 set_option maxRecDepth 100000 in
 /-- finding rollback_nested_fails: the third rename (call 17) fails; rollback cannot move `bar/bar` back to `foo/foo`
     because `foo` does not exist yet, and the tree is left as `foo/bar/foo.txt` -/
-theorem C04_witness_rollback_nested :
+theorem C04_witness_rollback_nested : ExecFlags.rollbackRealPairs = false →
     outcome (run (bodyApply plN) tN (.fail 17 .EIO)) = .fail ∧
     fileAt (run (bodyApply plN) tN (.fail 17 .EIO)) [b!"foo", b!"bar", b!"foo.txt"] = some (.file b!"x" 0o644) ∧
     fileAt (run (bodyApply plN) tN (.fail 17 .EIO)) [b!"foo", b!"foo", b!"foo.txt"] = none := by decide +kernel
@@ -214,7 +250,7 @@ theorem rollback_restores_paths_example :
 
 set_option maxRecDepth 100000 in
 /-- finding log_failure_skips_rollback: the log line "Adjusted rename source" (call 7) fails; `foo` stays renamed -/
-theorem C04_witness_log_skips_rollback :
+theorem C04_witness_log_skips_rollback : ExecFlags.logErrorsIgnored = false →
     outcome (run (bodyApply plN) tN (.fail 7 .EIO)) = .fail ∧
     fileAt (run (bodyApply plN) tN (.fail 7 .EIO)) [b!"bar", b!"foo", b!"foo.txt"] = some (.file b!"x" 0o644) := by
   decide +kernel
@@ -222,7 +258,7 @@ theorem C04_witness_log_skips_rollback :
 set_option maxRecDepth 100000 in
 /-- finding probe_dir_left_behind: removing the case-probe file (call 3 of the body of `rename`) fails; success is reported and
     `.tmpRAND/test_case_a` stays in the user's tree -/
-theorem C04_witness_probe_left :
+theorem C04_witness_probe_left : ExecFlags.probeCleanupRetried = false →
     outcome (run (bodyRename plA) (tA.take 2) (.fail 3 .EIO)) = .ok ∧
     fileAt (run (bodyRename plA) (tA.take 2) (.fail 3 .EIO)) pProbeFile = some (.file b!"test" 0o644) := by decide +kernel
 
@@ -257,12 +293,87 @@ theorem edits_never_panic (c : Bytes) (es : List Edits.Edit) : Edits.applyEdits 
 theorem core_never_panics (cfg : Cfg) (plan : Plan) (s s' : St) : core cfg plan s ≠ .err .panic s' := by
   have h : NoPanic (core cfg plan) := by
     unfold core
-    exact np_bind (np_contentLoop _ cfg plan.hunks _) (fun _ => np_renameLoop cfg _ _)
+    exact np_bind (np_contentLoop _ cfg plan.hunks _) (fun _ => np_renameLoop _ cfg _ _ _)
   exact h s s'
 
 /-- the model's `applyEdits` is the checked variant exactly when the source checks its slices (flag read by
     translate/execflags.py from apply_content_edits_with_content) -/
 theorem offsets_checked_flag : ExecFlags.offsetsChecked = true := by decide
+
+set_option maxRecDepth 100000 in
+/-- non-vacuity of `rollback_restores_paths` on the NESTED scenario: the three executed renames satisfy the guard, and
+    the theorem's conclusion is the kernel-evaluated fact -/
+theorem rollback_restores_paths_nested_example :
+    RevAlong tN (execOf [] (sortRens plN.rens)) ∧
+    (execAll tN (execOf [] (sortRens plN.rens))).isSome = true ∧
+    execOf [] (sortRens plN.rens) =
+      [ ([b!"foo"], [b!"bar"]), ([b!"bar", b!"foo"], [b!"bar", b!"bar"]),
+        ([b!"bar", b!"bar", b!"foo.txt"], [b!"bar", b!"bar", b!"bar.txt"]) ] := by
+  unfold RevAlong
+  decide +kernel
+
+set_option maxRecDepth 100000 in
+/-- non-vacuity of `rename_phase_failure_restores`: the nested scenario satisfies its guard -/
+theorem rename_phase_guard_nested_example : phaseOkB tN [] (sortRens plN.rens) = true := by decide +kernel
+
+set_option maxRecDepth 100000 in
+/-- finding failure_after_history_recorded at the code with the atomic history save but the old order (entry, then
+    stored plan): `mkdir .renamify/plans` (call 32) fails after the entry was written -/
+theorem C04_witness_failure_after_history_head :
+    ExecFlags.atomicHistorySave = true → ExecFlags.historyEntryIsCommitPoint = false →
+    outcome (run (bodyApply plA) tA (.fail 32 .EIO)) = .fail ∧
+    loadHist (run (bodyApply plA) tA (.fail 32 .EIO)).st.t = [entryOld, entryApply] := by decide +kernel
+
+-- the repairs (each conditional on the flag that translate/execflags.py reads from the repaired source) --------------
+
+set_option maxRecDepth 100000 in
+/-- repair `rollbackRealPairs`: the failing third rename of the nested scenario (call 17) is now rolled back completely -/
+theorem rollback_nested_restores_now : ExecFlags.rollbackRealPairs = true →
+    outcome (run (bodyApply plN) tN (.fail 17 .EIO)) = .fail ∧
+    userTree (run (bodyApply plN) tN (.fail 17 .EIO)).st.t = userTree tN ∧
+    loadHist (run (bodyApply plN) tN (.fail 17 .EIO)).st.t = [entryOld] := by decide +kernel
+
+set_option maxRecDepth 100000 in
+/-- repair `logErrorsIgnored`: a log line that cannot be written (call 7, "Adjusted rename source") is dropped; the
+    command goes on and succeeds with the whole plan applied and recorded -/
+theorem log_failure_is_no_failure_now : ExecFlags.logErrorsIgnored = true →
+    outcome (run (bodyApply plN) tN (.fail 7 .EIO)) = .ok ∧
+    userTree (run (bodyApply plN) tN (.fail 7 .EIO)).st.t = userTree (applyPlan tN plN).tree ∧
+    loadHist (run (bodyApply plN) tN (.fail 7 .EIO)).st.t = [entryOld, entryApply] := by decide +kernel
+
+set_option maxRecDepth 100000 in
+/-- repair `historyEntryIsCommitPoint` (+ `rollbackRealPairs`): failures after the rename phase — creating the backup
+    directory (call 22), writing the stored plan (call 29), publishing the history entry (call 34) — roll the three
+    nested renames back, leave the history as it was and no stored plan behind -/
+theorem late_failure_rolls_back_now :
+    ExecFlags.historyEntryIsCommitPoint = true → ExecFlags.rollbackRealPairs = true → ExecFlags.atomicHistorySave = true →
+    ∀ k ∈ [22, 29, 34],
+      outcome (run (bodyApply plN) tN (.fail k .EIO)) = .fail ∧
+      userTree (run (bodyApply plN) tN (.fail k .EIO)).st.t = userTree tN ∧
+      loadHist (run (bodyApply plN) tN (.fail k .EIO)).st.t = [entryOld] ∧
+      fileAt (run (bodyApply plN) tN (.fail k .EIO)) (pStored idNew) = none := by decide +kernel
+
+set_option maxRecDepth 100000 in
+/-- … and on that scenario EVERY single injected failure (calls 0–36) either is not a failure of the command (log
+    lines, the removal of plan.json: success, everything applied and recorded) or leaves the user's tree and the
+    history exactly as they were: `C04_full` holds on a plan without content edits -/
+theorem C04_full_on_rename_only_scenario_now :
+    ExecFlags.historyEntryIsCommitPoint = true → ExecFlags.rollbackRealPairs = true →
+    ExecFlags.logErrorsIgnored = true → ExecFlags.atomicHistorySave = true →
+    ∀ k ∈ List.range 37,
+      (outcome (run (bodyApply plN) tN (.fail k .EIO)) = .ok ∧
+        userTree (run (bodyApply plN) tN (.fail k .EIO)).st.t = userTree (applyPlan tN plN).tree ∧
+        loadHist (run (bodyApply plN) tN (.fail k .EIO)).st.t = [entryOld, entryApply]) ∨
+      (outcome (run (bodyApply plN) tN (.fail k .EIO)) = .fail ∧
+        userTree (run (bodyApply plN) tN (.fail k .EIO)).st.t = userTree tN ∧
+        loadHist (run (bodyApply plN) tN (.fail k .EIO)).st.t = [entryOld]) := by decide +kernel
+
+set_option maxRecDepth 100000 in
+/-- repair `probeCleanupRetried`: the failed removal of the probe file (call 3) is retried; nothing stays behind -/
+theorem probe_cleanup_retried_now : ExecFlags.probeCleanupRetried = true →
+    outcome (run (bodyRename plA) (tA.take 2) (.fail 3 .EIO)) = .ok ∧
+    fileAt (run (bodyRename plA) (tA.take 2) (.fail 3 .EIO)) pProbeFile = none ∧
+    fileAt (run (bodyRename plA) (tA.take 2) (.fail 3 .EIO)) pProbe = none := by decide +kernel
 
 set_option maxRecDepth 100000 in
 theorem C04_full_false : ¬ C04_full := by
